@@ -4,10 +4,27 @@
    (strconv.AppendFloat for every float in the document in both formats; getBoundExponential for
    every bucket index used), and what an independent decoder (encoding/json + strconv.ParseFloat,
    numbers kept as literals) read back from the bytes. *)
-From Coq Require Import List ZArith NArith Bool.
+From Coq Require Import List ZArith NArith Bool Uint63.
 From Verif Require Import lib.Int64 model.ApiJson.
 Import ListNotations.
 Open Scope Z_scope.
+
+(* Byte strings in case files are packed 7 bytes per primitive 63-bit integer (big-endian inside a
+   word, the last word holds the remaining len mod 7 bytes): far cheaper for Coq to parse and
+   type-check than lists of numerals or string literals. *)
+Fixpoint unpackZ (k : nat) (z : Z) (acc : bytes) : bytes :=
+  match k with O => acc | S k' => unpackZ k' (z / 256) (Z.to_N (z mod 256) :: acc) end.
+Fixpoint pk_go (ws : list int) (len : Z) : bytes :=
+  match ws with
+  | [] => []
+  | w :: r => let k := Z.min 7 len in unpackZ (Z.to_nat k) (Uint63.to_Z w) [] ++ pk_go r (len - k)
+  end.
+Definition pk (ws : list int) (len : Z) : bytes := pk_go ws len.
+(* integers as two 32-bit halves in primitive ints (number notations for Z are slow to interpret) *)
+Definition zq (hi lo : int) : Z := Uint63.to_Z hi * 4294967296 + Uint63.to_Z lo.
+Definition zn (hi lo : int) : Z := - zq hi lo.
+Arguments zq (hi lo)%uint63.
+Arguments zn (hi lo)%uint63.
 
 Record dhist := mkDH { dh_count : Z; dh_sum : Z; dh_buckets : list (Z * Z * Z * Z) }.
 Inductive dvalue := DVF (f : Z) | DVH (h : dhist).
